@@ -39,6 +39,17 @@ def ref_model(mb: ModelBuilder) -> AObj:
     return mb.model(root, [mb.constraint(f"C{i + 1}", c) for i, c in enumerate(cs)])
 
 
+def ref_model_many_ctcs(mb: ModelBuilder) -> AObj:
+    """Several constraints over the same pairs: both kinds on one ordered pair, the reversed pair, a
+    repeated constraint - each element of the document is one constraint of the model."""
+    m = ref_model(mb)
+    n, o = mb.node, mb.op
+    extra = [n(o("EXCLUDES"), n("Card"), n("Security")), n(o("REQUIRES"), n("Security"), n("Card")),
+             n(o("REQUIRES"), n("Coin"), n("Advanced")), n(o("REQUIRES"), n("Card"), n("Security"))]
+    m._f["ctcs"] = m._f["ctcs"] + [mb.constraint(f"C{i + 3}", c) for i, c in enumerate(extra)]
+    return m
+
+
 def read(pm: ProgramModel, reader: str, content: Any) -> dict[str, Any]:
     vfs = VFS()
     vfs.files[PATH] = content
@@ -150,6 +161,10 @@ def featureide(pm: ProgramModel, ctx: Ctx, mb: ModelBuilder) -> None:
         "nested": ("<imp><conj><var>A</var><var>B</var><var>C</var></conj><disj><var>D</var><not><var>A</var></not>"
                    "<var>B</var></disj></imp>", None),
         "eq": ("<eq><var>A</var><disj><var>B</var><var>C</var></disj></eq>", None),
+        "disj-in-conj": ("<conj><disj><var>A</var><var>B</var></disj><var>C</var><var>D</var></conj>", None),
+        "conj-in-disj": ("<disj><var>D</var><conj><var>A</var><var>B</var></conj><var>C</var></disj>", None),
+        "deep-mixed": ("<conj><var>A</var><disj><var>B</var><conj><var>C</var><var>D</var><var>A</var></conj>"
+                       "<var>D</var></disj><var>B</var></conj>", None),
     }
     for key, (xml, _) in nary.items():
         root = mb.feature("R")
@@ -162,6 +177,10 @@ def featureide(pm: ProgramModel, ctx: Ctx, mb: ModelBuilder) -> None:
             "nested": nn(o("IMPLIES"), nn(o("AND"), nn(o("AND"), nn("A"), nn("B")), nn("C")),
                          nn(o("OR"), nn(o("OR"), nn("D"), nn(o("NOT"), nn("A"))), nn("B"))),
             "eq": nn(o("EQUIVALENCE"), nn("A"), nn(o("OR"), nn("B"), nn("C"))),
+            "disj-in-conj": nn(o("AND"), nn(o("AND"), nn(o("OR"), nn("A"), nn("B")), nn("C")), nn("D")),
+            "conj-in-disj": nn(o("OR"), nn(o("OR"), nn("D"), nn(o("AND"), nn("A"), nn("B"))), nn("C")),
+            "deep-mixed": nn(o("AND"), nn(o("AND"), nn("A"), nn(o("OR"), nn(o("OR"), nn("B"), nn(o("AND"), nn(o("AND"),
+                          nn("C"), nn("D")), nn("A"))), nn("D"))), nn("B")),
         }[key]
         refm = mb.model(root, [mb.constraint("1", expected)])
         doc = ('<featureModel><struct><and name="R">' + "".join(f'<feature name="{x}"/>' for x in "ABCD") +
@@ -180,7 +199,8 @@ def featureide(pm: ProgramModel, ctx: Ctx, mb: ModelBuilder) -> None:
 
 
 # ---- FaMa XML --------------------------------------------------------------------------------------
-def fama_doc(ref: AObj, ctc_first: bool = False, extra: bool = False, card_after: bool = False) -> str:
+def fama_doc(ref: AObj, ctc_first: bool = False, extra: bool = False, card_after: bool = False,
+             many_ctcs: bool = False) -> str:
     cnt = itertools.count(1)
 
     def feat(f: AObj, tag: str, depth: int) -> list[str]:
@@ -210,6 +230,11 @@ def fama_doc(ref: AObj, ctc_first: bool = False, extra: bool = False, card_after
         return out
     ctcs = ['\t<requires name="C1" feature="Card" requires="Security"/>',
             '\t<excludes name="C2" feature="Coin" excludes="Advanced"/>']
+    if many_ctcs:
+        ctcs += ['\t<excludes name="C3" feature="Card" excludes="Security"/>',
+                 '\t<requires name="C4" feature="Security" requires="Card"/>',
+                 '\t<requires name="C5" feature="Coin" requires="Advanced"/>',
+                 '\t<requires name="C6" feature="Card" requires="Security"/>']
     lines = ['<?xml version="1.0" encoding="UTF-8" ?>', "<feature-model>"]
     if extra:
         lines.append("\t<description>demo</description>")
@@ -230,6 +255,11 @@ def fama(pm: ProgramModel, ctx: Ctx, mb: ModelBuilder) -> None:
         label = ",".join(k for k, v in (("extra-elements", extra), ("cardinality-last", card_after)) if v) or "plain"
         r = read(pm, "XMLReader", fama_doc(ref, extra=extra, card_after=card_after).encode("utf8"))
         compare(ctx, "C09-FAMA", f"variant:{label}", where, r, ref, f"FaMa XML document ({label})", sem=False, names=True)
+    refm = ref_model_many_ctcs(mb)
+    r = read(pm, "XMLReader", fama_doc(refm, many_ctcs=True).encode("utf8"))
+    compare(ctx, "C09-FAMA", "several-constraints-on-one-pair", where, r, refm,
+            "FaMa XML with requires and excludes on the same pair, a reversed pair and a repeated constraint",
+            sem=False, names=True)
     # cardinalities as written, incl. [2..3] and [0..1] groups
     root = mb.feature("R")
     mb.relation(root, [mb.feature("A"), mb.feature("B"), mb.feature("C")], 2, 3)
